@@ -123,6 +123,9 @@ func genWScript(rng *rand.Rand) *wscript {
 	}
 	s.ctype = []byte{0, 1, 3, 1, 3, 2}[rng.Intn(6)]
 	style := rng.Intn(5)
+	if s.capI > 100 && style == 1 {
+		style = 2 // no byte-wise writing of multi-kilobyte arguments (model cost is quadratic)
+	}
 	for a := 0; a < 3; a++ {
 		n := argLen(rng, s.capI, s.capC)
 		if s.capI > 1000 && rng.Intn(2) == 0 {
